@@ -7,6 +7,16 @@ V = Path(__file__).resolve().parent.parent
 TECH = "TLA+ specification model-checked with TLC, bound to the implementation by trace validation (TLC checks recorded implementation traces against the abstract spec) and replay of TLC-generated cases/behaviours"
 
 CLAIMS = {
+    "C04": {
+        "text": "Mechanism specification RegistrationRace at the granularity of each atomic operation and lock acquisition (MacroCallsite interest byte and UNREGISTERED/REGISTERING/REGISTERED CAS, callsite::register under the read lock with the lock-free push as load / store-next / CAS, register_dispatch and rebuild under the write lock re-folding one callsite at a time, MAX_LEVEL, scoped defaults): TLC explores every interleaving of three 2-3 thread scenarios and checks no deadlock, a thread's own installed collector judges its emissions (never delivered to a rejecting collector, never missed), quiescence (every listed callsite offered to every live collector, interest and MAX_LEVEL admit what live collectors accept, list complete) and termination. Binding: the real code is run under a cooperative scheduler that releases one thread at a time between cfg-guarded yield points placed at those same operations; schedules are TLC -simulate thread-choice sequences of the model, all schedules with <= 1-2 preemptions (sampled in quick) and seeded random ones over 7 scenarios; TLC validates every run against the interleaving-independent abstract verdict (RaceTrace) incl. a quiescent round over all callsites.",
+        "note": "Sequentially consistent interleavings only. A third of the runs ignore the lock notes and detect real blocking by time-out, so that a lock released earlier than annotated is still raced. Hooks: b56ccfa, 833e06c.",
+        "ref": "4 (C04)",
+    },
+    "C12": {
+        "text": "Mechanism specification Reload (reload = write-lock / store / unlock / per-callsite re-fold / MAX_LEVEL as separately scheduled steps; emission = MAX_LEVEL gate / cached interest / value read under the read lock), checked by TLC for every interleaving of one reloader (2 reloads, static and dynamic values) with 2 emitters: every emission is judged by a value in effect at some moment of the emission, hence by the new value once reload has returned. Binding: shared stacks with a reloadable Targets filter (global or per-layer) or EnvFilter (incl. a span-scoped directive, next to a second `sometimes` collector), one thread reloading between emissions and 1-2 threads emitting, run under the cooperative scheduler at the yield points of reload::Handle::modify, the registry and MacroCallsite; TLC validates each emission against the values in effect between its start and end, plus a quiescent round and the dead-handle error.",
+        "note": "Known finding F20 (EnvFilter span directive missed by the thread losing the registration race) is reported as KNOWN-FINDING. Hooks: 4b170c9 and those of C04.",
+        "ref": "4 (C12)",
+    },
     "C16": {
         "text": "Specification Rolling (A): the appender as clock readings -> period index, `cur` / next rotation instant, files as period -> buffer sequence, creation order, pruning to the file limit; MCRolling (M): 3 concurrent MakeWriter users around a boundary with one step per should_rollover load / CAS / refresh_writer / read lock / write, checked by TLC for exactly-once storage, right file (or the file being replaced) and one rotation per boundary. Binding: 300/3000 appenders (4 rotation kinds x prefix/suffix x file limit) created at scripted instants (year / month ends, leap days, random) through the clock hook, 8-20 writes with standing, advancing, exact-boundary, boundary-1, multi-period and backward clock readings through both interfaces, plus races of 2-3 MakeWriter users scheduled at the appender's yield points; after every write TLC validates the directory listing (file names mapped to periods by an independent calendar, contents to buffer ids) against A.",
         "note": "Clock readings are below 2^31 (TLC integers), so the year-2100 leap rule of file names is out of reach; creation-time ordering relies on the harness keeping rotations >= 12 ms apart. Hooks: clock override + yield points (9b2dc2a).",
